@@ -119,6 +119,9 @@ func (pk *PublicKey[P, B, S]) UnmarshalCBOR(data []byte) error {
 	if dto == nil {
 		return signatures.ErrInvalidArgument.WithMessage("PublicKey data is nil")
 	}
+	if utils.IsNil(dto.PK) {
+		return signatures.ErrInvalidArgument.WithMessage("public key point is missing")
+	}
 
 	pk2, err := NewPublicKey(dto.PK)
 	if err != nil {
